@@ -25,6 +25,16 @@ impl Tier {
     }
 }
 
+/// run count for a tier: `base` is the quick count of the release profile; the debug profile
+/// (much slower per run) gets an eighth; the thorough tier multiplies by 20
+pub fn scaled(base: u64, tier: Tier) -> u64 {
+    let b = if cfg!(debug_assertions) { base / 8 } else { base };
+    match tier {
+        Tier::Quick => b,
+        Tier::Thorough => b * 20,
+    }
+}
+
 pub const PROFILE: &str = if cfg!(debug_assertions) { "dbg" } else { "rel" };
 
 #[derive(Clone, Debug, Serialize, Deserialize, PartialEq)]
